@@ -124,6 +124,12 @@ def check(acc, smis, frac, nmol, kinds, seed):
     if r is None:
         acc.count("ensemble_failed_or_timeout_dropped")
         return
+    if seed % 2 == 0:
+        # the composition must hold for every ensemble generated from the same object, not only the first one
+        r_again = shares(seed + 1)
+        if r_again is not None:
+            r = r_again
+            acc.label("second_ensemble_of_the_same_object")
     sh, n, log, G, foreign = r
     acc.case((text, seed) if nontrivial else None, labels=[f"n:{len(smis)}", f"ratio:{min(100, int(ratio) // 5 * 5)}"])
     if foreign:
